@@ -13,7 +13,7 @@ import (
 func init() { All["C20"] = checkC20 }
 
 func checkC20(p *ana.Prog, r *ana.Result) {
-	r.Explain("C20 (structural necessary conditions): dialTLS hands out a connection only through NegotiatedProtocol == \"ntske/1\" and both dial functions offer exactly that ALPN; Fetcher.exchangeKeys returns nil only through dial==nil, exchangeData*==nil, ExportKeys==nil, len(cookies)!=0 and algorithm==AES-SIV-CMAC-256; ReadData returns nil only at end-of-message, its error-record arm always fails, its unknown-record arm fails whenever the critical bit (read before it is masked off) was set and otherwise consumes exactly BodyLen bytes; ExportKeyingMaterial is called only by ntske.ExportKeys with the RFC 8915 label, fresh constant contexts (...,0x0f,0x01 -> S2C, ...,0x0f,0x00 -> C2S) and length 32, and client and servers call ExportKeys on the connection state of the session the records were exchanged on; the defaults returned by dialTLS/dialQUIC (peer host, standard port) replace the fetcher's data before records are read (so nothing of an earlier exchange survives); every failure of an exchange clears the fetcher's cookie pool; an exchange is started only when the pool is empty; the clients send to the server/port of the fetched data; the server's message is NextProto, Algorithm, Server, Port, 8 cookies sealed under provider.Current(), End.")
+	r.Explain("C20 (structural necessary conditions): dialTLS hands out a connection only through NegotiatedProtocol == \"ntske/1\" and both dial functions offer exactly that ALPN; Fetcher.exchangeKeys returns nil only through dial==nil, exchangeData*==nil, ExportKeys==nil, len(cookies)!=0 and algorithm==AES-SIV-CMAC-256; ReadData returns nil only at end-of-message, its error-record arm always fails, its unknown-record arm fails whenever the critical bit (read before it is masked off) was set and otherwise consumes exactly BodyLen bytes; ExportKeyingMaterial is called only by ntske.ExportKeys with the RFC 8915 label, fresh constant contexts (...,0x0f,0x01 -> S2C, ...,0x0f,0x00 -> C2S) and length 32, and client and servers call ExportKeys on the connection state of the session the records were exchanged on; the defaults returned by dialTLS/dialQUIC (peer host, standard port) replace the fetcher's data before records are read (so nothing of an earlier exchange survives); every failure of an exchange clears the fetcher's cookie pool; an exchange is started only when the pool is empty; the clients send to the server/port of the fetched data; the server's message is NextProto, Algorithm, Server, Port, 8 cookies sealed under provider.Current(), End. ReadData returns nil only from the End-of-Message arm (shared with C14).")
 	r.Undecided("TLS itself, certificate validation, the exporter's values, truncation at every byte offset (covered only as: every read error propagates)")
 	c20Dial(p, r)
 	c20Exchange(p, r)
